@@ -5,7 +5,7 @@
    Part B (real numbers): closed form of one calc(): energy = sum of the energies of the counted
    biases, force on a coordinate = sum over variables of (sum over active applying biases of
    factor * force) * gradient.  Superposition, inactivity and impulse are corollaries. *)
-From Coq Require Import ZArith List Bool Lia Arith.
+From Coq Require Import ZArith List Bool Lia Arith Permutation.
 From CV Require Import Base.Num C08.ModuleModel.
 Import ListNotations.
 Open Scope Z_scope.
@@ -1760,6 +1760,22 @@ Section Real.
       destruct (Forall3_nth _ _ _ H j) as [F1 F2]. cbn [map rsum]. split.
       + intros k. rewrite F1, IH1. reflexivity.
       + rewrite F2, IH2. reflexivity.
+  Qed.
+
+  (* ---- the order of the biases does not matter -------------------------------------------------------- *)
+  Lemma rsum_perm {A} (f : A -> R) (l l' : list A) : Permutation l l' -> rsum (map f l) = rsum (map f l').
+  Proof. induction 1; cbn [map rsum]; lra. Qed.
+
+  Theorem order_independent it0 tsfs (cfgs cfgs' : list (@bias_cfg R BS)) evs j :
+    Permutation cfgs cfgs' ->
+    (forall k, nth_force (run_cfg Rops fixed efix it0 tsfs cfgs evs) j k
+               = nth_force (run_cfg Rops fixed efix it0 tsfs cfgs' evs) j k) /\
+    nth_energy (run_cfg Rops fixed efix it0 tsfs cfgs evs) j = nth_energy (run_cfg Rops fixed efix it0 tsfs cfgs' evs) j.
+  Proof.
+    intros P. destruct (superposition_all it0 tsfs cfgs evs j) as [A1 A2].
+    destruct (superposition_all it0 tsfs cfgs' evs j) as [B1 B2]. split.
+    - intros k. rewrite A1, B1. apply rsum_perm; exact P.
+    - rewrite A2, B2. apply rsum_perm; exact P.
   Qed.
 
   (* forces delivered over a window of N calls starting at call j *)
